@@ -221,6 +221,15 @@ def mask33x : Str := "33x".toList
 def codeMatches (code mask : Str) : Bool :=
   (mask.zip code).all (fun mc => !(isDigitCh mc.1) || mc.1 == mc.2)
 
+/-- `BaseClient.command` raises ValueError — before its first logging call and before it writes to the stream —
+    when the line contains one of the characters the translator found in its guard (now CR and LF) -/
+def clientRejects (command : Str) : Bool := command.any (fun c => Generated.clientCommandRejects.contains c)
+
+/-- the logging part of one `command(...)` call: `none` = ValueError raised with nothing logged and nothing
+    sent; `some none` = nothing to send (`if command:` false); `some (some r)` = the record `r` -/
+def clientCommandOutcome (command : Str) (censorAfter : Option Nat) : Option (Option Str) :=
+  if !command.isEmpty && clientRejects command then none else some (clientCommandRecord command censorAfter)
+
 /-- the `while code.matches("33x")` loop of `Client.login`; `fuel` bounds the number of rounds.
     Stops (returns the wire state) when the code is 230, or when `check_codes` / the `else` branch
     raises StatusCodeError — nothing is logged by either. -/
@@ -231,11 +240,13 @@ def loginLoop {σ : Type} (env : Env σ) (password account : Str) :
     if !(codeMatches code mask230 || codeMatches code mask33x) then some w   -- check_codes raises
     else if !(codeMatches code mask33x) then some w             -- 230: done
     else if code = code331 then
-      match clientCommand env w ("PASS ".toList ++ password) (some 5) with
+      if clientRejects ("PASS ".toList ++ password) then some w     -- ValueError: nothing logged, nothing sent
+      else match clientCommand env w ("PASS ".toList ++ password) (some 5) with
       | none => none
       | some (w', code') => loginLoop env password account fuel w' code'
     else if code = code332 then
-      match clientCommand env w ("ACCT ".toList ++ account) none with
+      if clientRejects ("ACCT ".toList ++ account) then some w
+      else match clientCommand env w ("ACCT ".toList ++ account) none with
       | none => none
       | some (w', code') => loginLoop env password account fuel w' code'
     else some w                                                 -- other 33x: raises
@@ -244,6 +255,7 @@ def loginLoop {σ : Type} (env : Env σ) (password account : Str) :
     Result: (client records, server records). -/
 def loginSession {σ : Type} (env : Env σ) (st : LState σ) (user password account : Str) (fuel : Nat) :
     Option (List Str × List Str) :=
+  if clientRejects ("USER ".toList ++ user) then some ([], []) else
   match clientCommand env ⟨st, [], [], []⟩ ("USER ".toList ++ user) none with
   | none => none
   | some (w, code) =>
